@@ -33,7 +33,12 @@ RULE = ("A case is one gene on a real record plus the protein ranges asked of it
         "ATG/GTG/TTG. Genes up to 40 residues get ALL ranges 0<=s<e<=n; longer genes (to 330 residues) get "
         "ranges drawn around exon borders and ends. Enumeration: every 1-3 exon split of a 5-codon gene x "
         "strand x intron x every rotation of a ring that holds it, all ranges. Non-trivial: the gene has more "
-        "than one part, or is on the reverse strand, or has codon_start 2/3; distinct = sha1 of the spec.")
+        "than one part, or is on the reverse strand, or has codon_start 2/3; distinct = sha1 of the spec. "
+        "Prepeptides: genes of 1-4 exons (3-4 favoured), half of them with leader/core/tail borders laid just after "
+        "successive exon borders so that consecutive sections each hold an intron; every prepeptide is judged fresh and "
+        "again after Record.from_biopython rebuilt it from its own features. domains_multi: 2-3 genes side by side on "
+        "one record, one build_hits call, 1-3 protein ranges repeated in several genes plus private ones, hit order "
+        "permuted; non-trivial when a range is shared by two genes.")
 ASSUMPTIONS = [
     "Biopython's SimpleLocation/CompoundLocation.extract and Seq.translate (table 11) are the trusted base",
     "a location means its bases in Biopython's extraction order (parts in order, reverse strand parts reversed)",
@@ -341,7 +346,7 @@ def explained_by_overlap(case: Case, start: int, end: int, failure: dict) -> boo
     return failure["clause"] == "length"
 
 
-def run_ranges(case: Case, ranges: list, produce, label: str, code_range=None) -> dict:
+def run_ranges(case: Case, ranges: list, produce, label: str, code_range=None, extra_explain=None) -> dict:
     """ produce(s, e) -> (location, claimed translation or None). Collects failures over all ranges and
         raises: the first failure no known defect explains, else (if any) the known defect's clause.
         code_range(s, e) -> the range a known defect makes the code use instead (prepeptides only). """
@@ -360,7 +365,10 @@ def run_ranges(case: Case, ranges: list, produce, label: str, code_range=None) -
         if failure is None:
             continue
         used = code_range(start, end) if code_range else (start, end)
-        if explained_by_coordinate_order(case, used[0], used[1], failure):
+        first_guess = extra_explain(start, end, failure) if extra_explain is not None else None
+        if first_guess is not None:
+            failure["explained"] = first_guess
+        elif explained_by_coordinate_order(case, used[0], used[1], failure):
             failure["explained"] = "span_coordinate_order"
         elif explained_by_overlap(case, used[0], used[1], failure):
             failure["explained"] = "overlap_boundary"
@@ -568,7 +576,34 @@ def check_prepeptide(spec: dict) -> dict:
     # the same annotations after the record has been written out and read back: Record.from_biopython
     # rebuilds the prepeptide from its core feature (its location from the stored leader/core/tail locations)
     # and its sections are produced again from that
-    reread = _reread_prepeptide(case, peptide)
+    written = [read_location(produced[name].location) for name in order]
+    try:
+        reread = _reread_prepeptide(case, peptide)
+    except Violation as vio:
+        # known (C09-overlap-same-end-refused): with exons overlapping by 1-2 bases a section that ends on the
+        # shared base has two parts with one end; antiSMASH refuses such a location when the record is read
+        same_end = any(len({end for _, end in section["parts"]}) < len(section["parts"]) for section in written)
+        if (vio.clause == "reread_prepeptide_exception" and case.overlap and same_end
+                and "location contains overlapping exons" in vio.detail["message"]):
+            raise pending or Violation("reread_prepeptide_overlap_boundary",
+                                       {"first": vio.detail, "first_clause": "exception", "failed_ranges": 1,
+                                        "ranges": len(ranges), "all_explained_by": "overlap_boundary"}) from vio
+        raise
+    # known (C09-prepeptide-rebuilt-hull-adjacency): what build_location_from_others makes of the sections when the
+    # lowest coordinate of one equals the highest coordinate of those before it without following it in the transcript
+    rebuilt_model = _rebuild_by_hull(written, case.strand)
+
+    def explain_hull(start: int, end: int, failure: dict):
+        if rebuilt_model is None or not case.spanning:
+            return None
+        if failure["clause"] == "exception":
+            return "hull_adjacency" if failure["detail"]["where"].endswith(
+                "feature.py:get_sub_location_from_protein_coordinates") else None
+        walked = transcript({"parts": rebuilt_model, "strand": case.strand})
+        if end >= case.residues:      # the last section runs to the end of the (rebuilt, longer) location
+            end = len(walked) // 3
+        return "hull_adjacency" if failure.get("got_order") == walked[3 * start:3 * end] else None
+
     again: dict = {}
     for feature in reread:
         section = feature.qualifiers.get("prepeptide", ["?"])[0]
@@ -583,7 +618,7 @@ def check_prepeptide(spec: dict) -> dict:
         return again[name].location, claimed[name]
 
     try:
-        run_ranges(case, ranges, produce_again, "reread_prepeptide", code_range)
+        run_ranges(case, ranges, produce_again, "reread_prepeptide", code_range, explain_hull)
     except Violation as vio:
         if not (isinstance(vio.detail, dict) and vio.detail.get("all_explained_by")):
             raise
@@ -600,6 +635,23 @@ def check_prepeptide(spec: dict) -> dict:
         labels.append("consecutive_sections_over_introns")
         labels.append(f"consecutive_sections_over_introns_strand_{case.strand}")
     return {"nontrivial": nontrivial(case), "classes": labels}
+
+
+def _rebuild_by_hull(sections: list, strand: int):
+    """ build_location_from_others as it is today, on plain part lists: a section is merged into what was built
+        when its lowest coordinate equals the highest coordinate built so far.  Returns the rebuilt parts if at
+        least one such merge joined parts that do not follow each other in the transcript, else None. """
+    built = [list(part) for part in sections[0]["parts"]]
+    false_merge = False
+    for section in sections[1:]:
+        parts = [list(part) for part in section["parts"]]
+        if min(s for s, _ in parts) == max(e for _, e in built):
+            if strand == -1 or built[-1][1] != parts[0][0]:
+                false_merge = True
+            built = built[:-1] + [[built[-1][0], parts[0][1]]] + parts[1:]
+        else:
+            built = built + parts
+    return built if false_merge else None
 
 
 def _reread_prepeptide(case: Case, peptide) -> list:
@@ -730,6 +782,94 @@ def check_domains(spec: dict) -> dict:
         pfamdb.KNOWN_MAPPINGS.pop(database, None)
     labels = classes_of(case)
     return {"nontrivial": nontrivial(case), "classes": labels}
+
+
+def check_domains_multi(spec: dict) -> dict:
+    """ hmmer.build_hits + HmmerResults.add_to_record with SEVERAL genes in one call (the way full_hmmer,
+        cluster_hmmer, tigrfam and rrefinder use it): hits of different genes, some at exactly the same
+        protein coordinates; each resulting PFAM domain is judged against ITS OWN gene """
+    from antismash.common import hmmer, pfamdb
+    from antismash.common.secmet.locations import location_from_string
+    genes = spec["genes"]
+    sequences = [build_sequence(gene) for gene in genes]
+    sequence = "".join(sequences)
+    record = make_record(len(sequence), False, sequence)
+    cases = []
+    offset = 0
+    for index, gene in enumerate(genes):
+        moved = dict(gene, L=len(sequence), circular=False,
+                     loc=dict(gene["loc"], parts=[[s + offset, e + offset] for s, e in gene["loc"]["parts"]]))
+        case = Case(moved, shared={"sequence": sequence, "record": record, "name": f"gene{index}"})
+        assert not case.rejected and not case.spanning and not case.overlap
+        case.check_gene()
+        try:
+            record.add_cds_feature(case.cds)
+        except Exception as err:  # pylint: disable=broad-except
+            raise Violation("pfam_multi_gene_refused", _exc_detail(err)) from err
+        cases.append(case)
+        offset += gene["L"]
+
+    hits = []
+    for gene_index, start, end in spec["hits"]:
+        residues = cases[gene_index].residues
+        start = min(start, residues - 1)
+        hits.append((gene_index, start, min(max(end, start + 1), residues)))
+    # one result per gene (hmmscan reports per query), hsps in the order the hits were drawn
+    results: dict = {}
+    for number, (gene_index, start, end) in enumerate(hits):
+        name = cases[gene_index].name
+        hsp = SimpleNamespace(bitscore=30.0, evalue=1e-8, query_id=name, query_start=start, query_end=end,
+                              hit_id=f"prof{number}", hit_description="verif profile")
+        results.setdefault(name, SimpleNamespace(id=name, hsps=[])).hsps.append(hsp)
+    database = "/verif-db/pfam/35.0/Pfam-A.hmm"
+    pfamdb.KNOWN_MAPPINGS[database] = {f"prof{i}": f"PF{i:05d}" for i in range(len(hits))}
+    try:
+        try:
+            built = hmmer.build_hits(record, list(results.values()), 10.0, 1e-3, database)
+            hmmer.HmmerResults(record.id, 1e-3, 10.0, database, "verifhmmer", built).add_to_record(record)
+        except Exception as err:  # pylint: disable=broad-except
+            raise Violation("pfam_multi_exception", _exc_detail(err)) from err
+    finally:
+        pfamdb.KNOWN_MAPPINGS.pop(database, None)
+    by_profile = {hit.domain: hit for hit in built}
+    domains = {domain.identifier: domain for domain in record.get_pfam_domains()}
+    if len(built) != len(hits) or len(by_profile) != len(hits) or len(domains) != len(hits):
+        raise Violation("pfam_multi_hits_lost", {"hits": len(hits), "built": len(built), "features": len(domains)})
+    for number, (gene_index, start, end) in enumerate(hits):
+        case = cases[gene_index]
+        hit = by_profile[f"prof{number}"]
+        feature = domains[f"PF{number:05d}"]
+        where = {"gene": gene_index, "gene_location": case.loc["parts"], "gene_strand": case.strand, "hit": number}
+        if hit.locus_tag != case.name or feature.locus_tag != case.name:
+            raise Violation("pfam_multi_gene_name", dict(where, hit=hit.locus_tag, feature=feature.locus_tag))
+        _check_protein_location(feature, start, end, "pfam_multi")
+        if (hit.protein_start, hit.protein_end) != (start, end):
+            raise Violation("pfam_multi_protein_location", dict(where, got=[hit.protein_start, hit.protein_end]))
+        for label, location, claimed in (("hit", location_from_string(hit.location), hit.translation),
+                                         ("feature", feature.location, feature.translation)):
+            failure = judge(case, start, end, location, claimed)
+            if failure is not None:
+                detail = dict(failure["detail"], **where)
+                detail["judged"] = label
+                raise Violation(f"pfam_multi_{failure['clause']}", detail)
+
+    # what was generated
+    users: dict = {}
+    for gene_index, start, end in hits:
+        users.setdefault((start, end), set()).add(gene_index)
+    shared = [sorted(found) for found in users.values() if len(found) > 1]
+    labels = [f"genes_{len(genes)}", f"hits_{_bucket(len(hits))}"]
+    if shared:
+        labels.append("same_protein_range_in_two_genes")
+        if any(len({cases[g].strand for g in found}) > 1 for found in shared):
+            labels.append("same_range_genes_on_both_strands")
+        if any(any(cases[g].multi for g in found) for found in shared):
+            labels.append("same_range_gene_with_introns")
+        if any(len({len(cases[g].loc["parts"]) for g in found}) > 1 for found in shared):
+            labels.append("same_range_different_exon_counts")
+    if len(set(hits)) < len(hits):
+        labels.append("same_hit_twice_in_one_gene")
+    return {"nontrivial": bool(shared), "classes": labels}
 
 
 def _check_protein_location(feature, start: int, end: int, label: str) -> None:
@@ -883,6 +1023,7 @@ SUBCHECKS = {
     "sub_enum": check_sub,
     "prepeptide": check_prepeptide,
     "domains": check_domains,
+    "domains_multi": check_domains_multi,
     "tta": check_tta,
     "tta_enum": check_tta,
 }
@@ -892,13 +1033,15 @@ SUBCHECKS = {
 
 def _sig_span(sub, spec, clause, detail) -> bool:
     """ gene location spans the origin AND every failing range is explained by the coordinate-order walk """
-    return (gen.is_span(spec["loc"]) and clause.endswith("_span_coordinate_order")
+    return ("loc" in spec and gen.is_span(spec["loc"]) and clause.endswith("_span_coordinate_order")
             and detail.get("all_explained_by") == "span_coordinate_order")
 
 
 def _sig_overlap(sub, spec, clause, detail) -> bool:
     """ two exons of the gene overlap AND every failing range begins or ends on an overlap base AND the
         failure is a location of the wrong length (or Feature() refusing the right one: two parts, one end) """
+    if "loc" not in spec:     # the several-genes subcheck generates no overlapping exons
+        return False
     parts = spec["loc"]["parts"]
     overlapping = any(a is not b and max(a[0], b[0]) < min(a[1], b[1]) for a in parts for b in parts)
     return (overlapping and not gen.is_span(spec["loc"]) and clause.endswith("_overlap_boundary")
@@ -911,8 +1054,15 @@ def _sig_overlap_refused(sub, spec, clause, detail) -> bool:
         of its parts share an end coordinate ('location contains overlapping exons') """
     first = detail.get("first") or {}
     return (_sig_overlap(sub, spec, clause, detail) and detail.get("first_clause") == "exception"
-            and first.get("exception") == "ValueError"
+            and first.get("exception") in ("ValueError", "SecmetInvalidInputError")
             and "location contains overlapping exons" in str(first.get("message", "")))
+
+
+def _sig_hull_adjacency(sub, spec, clause, detail) -> bool:
+    """ prepeptide on an origin-spanning gene, re-read from its features, AND every wrong section is exactly what
+        walking the location rebuilt with the hull-coordinate merge gives """
+    return (sub == "prepeptide" and "loc" in spec and gen.is_span(spec["loc"])
+            and clause == "reread_prepeptide_hull_adjacency" and detail.get("all_explained_by") == "hull_adjacency")
 
 
 def _sig_tta(sub, spec, clause, detail) -> bool:
@@ -941,6 +1091,7 @@ SIGNATURES = {
     "tta_linear_offset": _sig_tta,
     "overlap_boundary": _sig_overlap,
     "overlap_same_end_refused": _sig_overlap_refused,
+    "prepeptide_rebuilt_hull_adjacency": _sig_hull_adjacency,
     "prepeptide_stop_codon_appended": _sig_prepeptide_appended,
     "prepeptide_stop_codon_shifted": _sig_prepeptide_shifted,
 }
@@ -978,7 +1129,7 @@ def layout(exons: list, introns: list, strand: int, length: int, start: int) -> 
 
 @st.composite
 def gene_specs(draw, max_codons: int = 40, sampled_ranges: bool = False, allow_span: bool = True,
-               tta: bool = False, allow_slip: bool = True) -> dict:
+               tta: bool = False, allow_slip: bool = True, parts=None, allow_partial: bool = True) -> dict:
     circular = draw(st.booleans())
     strand = draw(st.sampled_from([1, -1]))
     codon_start = draw(st.sampled_from([1, 1, 1, 2, 3]))
@@ -993,7 +1144,7 @@ def gene_specs(draw, max_codons: int = 40, sampled_ranges: bool = False, allow_s
     trailing = draw(st.sampled_from([0, 0, 0, 1, 2]))
     lead = codon_start - 1
     total = lead + 3 * (residues + (1 if stop else 0)) + trailing
-    nparts = draw(st.integers(1, 4))
+    nparts = draw(parts if parts is not None else st.integers(1, 4))
     cuts = set()
     for _ in range(nparts - 1):
         if total < 2:
@@ -1037,7 +1188,7 @@ def gene_specs(draw, max_codons: int = 40, sampled_ranges: bool = False, allow_s
             "start": draw(st.sampled_from(["ATG", "ATG", "GTG", "TTG"])), "ranges": "all"}
     if codon_start == 1 and draw(st.integers(0, 5)) == 0:
         spec["explicit_codon_start"] = True
-    if not gen.is_span(loc) and draw(st.integers(0, 3 if codon_start == 1 else 1)) == 0:
+    if allow_partial and not gen.is_span(loc) and draw(st.integers(0, 3 if codon_start == 1 else 1)) == 0:
         spec["partial"] = draw(st.sampled_from(["5", "5", "3", "53"]))
     if sampled_ranges:
         spec["ranges"] = draw(range_lists(residues, exons, lead))
@@ -1073,16 +1224,47 @@ def range_lists(draw, residues: int, exons: list, lead: int) -> list:
     return out
 
 
+def _border_residues(spec: dict) -> list:
+    """ residue indices at which the gene's transcript changes exon (rounded down), strictly inside the protein """
+    residues = _residues_of(spec)
+    pos = -(spec["codon_start"] - 1)
+    found = []
+    for start, end in spec["loc"]["parts"][:-1]:      # Biopython order is transcript order
+        pos += end - start
+        if 0 < pos // 3 < residues:
+            found.append(pos // 3)
+    return sorted(set(found))
+
+
 @st.composite
 def prepeptide_specs(draw) -> dict:
-    spec = draw(gene_specs(max_codons=60))
+    spec = draw(gene_specs(max_codons=60, parts=st.sampled_from([1, 2, 3, 3, 4, 4])))
     spec = dict(spec)
     spec.pop("ranges")
     parts = spec["loc"]["parts"]
     if any(a is not b and max(a[0], b[0]) < min(a[1], b[1]) for a in parts for b in parts):
         spec["stop"] = False   # keeps the two prepeptide findings' input classes disjoint
-    spec["leader"] = draw(st.one_of(st.just(0), st.integers(0, 30)))
-    spec["tail"] = draw(st.one_of(st.just(0), st.integers(0, 12)))
+    residues = _residues_of(spec)
+    inner = _border_residues(spec)
+    if inner and residues >= 3 and draw(st.booleans()):
+        # sections laid over the introns: the leader ends after one exon border, the core after a later one,
+        # so that consecutive sections each hold an intron (what a rebuilt prepeptide has to stitch together)
+        first = draw(st.integers(0, len(inner) - 1))
+        low = min(inner[first] + 1, residues - 1)
+        high = min(residues - 1, inner[first + 1] - 1) if first + 1 < len(inner) else residues - 1
+        leader = draw(st.integers(low, max(low, high)))
+        later = [b for b in inner if b >= leader]
+        core_low = min(residues, max(leader + 1, (later[0] + 1) if later else leader + 1))
+        beyond = [b for b in inner if b > core_low]
+        if beyond and draw(st.booleans()):
+            core_end = draw(st.integers(core_low, beyond[0]))   # the tail then holds an intron as well
+        else:
+            core_end = draw(st.integers(core_low, residues))
+        spec["leader"] = leader
+        spec["tail"] = residues - core_end
+    else:
+        spec["leader"] = draw(st.one_of(st.just(0), st.integers(0, 30)))
+        spec["tail"] = draw(st.one_of(st.just(0), st.integers(0, 12)))
     return spec
 
 
@@ -1102,6 +1284,34 @@ def domain_specs(draw) -> dict:
     else:
         spec["ranges"] = spec["ranges"][:8]
     return spec
+
+
+@st.composite
+def multi_gene_specs(draw) -> dict:
+    """ 2-3 genes (own strand, exon structure, codon_start) side by side on one linear record and hits that
+        deliberately repeat protein ranges across genes """
+    count = draw(st.sampled_from([2, 2, 3]))
+    genes = []
+    for _ in range(count):
+        gene = dict(draw(gene_specs(max_codons=40, allow_span=False, allow_slip=False, allow_partial=False,
+                                    parts=st.sampled_from([1, 1, 2, 3, 4]))))
+        gene.pop("ranges")
+        gene["circular"] = False
+        genes.append(gene)
+    smallest = min(_residues_of(gene) for gene in genes)
+    hits = []
+    for _ in range(draw(st.integers(1, 3))):
+        start = draw(st.integers(0, smallest - 1))
+        end = draw(st.integers(start + 1, smallest))
+        holders = draw(st.sampled_from([list(range(count))] * 2 + [[0, 1], [1, 0], [count - 1, 0]]))
+        hits.extend([index, start, end] for index in holders)
+    for _ in range(draw(st.integers(0, 3))):
+        index = draw(st.integers(0, count - 1))
+        residues = _residues_of(genes[index])
+        start = draw(st.integers(0, residues - 1))
+        hits.append([index, start, draw(st.integers(start + 1, residues))])
+    hits = draw(st.permutations(hits))
+    return {"genes": genes, "hits": [list(hit) for hit in hits]}
 
 
 def _residues_of(spec: dict) -> int:
@@ -1153,6 +1363,7 @@ def run(ctx) -> None:
     ctx.hyp("sub", gene_specs(max_codons=330, sampled_ranges=True), max_examples=ctx.pick(500, 9000), shards=shards)
     ctx.hyp("prepeptide", prepeptide_specs(), max_examples=ctx.pick(1200, 30000), shards=shards)
     ctx.hyp("domains", domain_specs(), max_examples=ctx.pick(600, 15000), shards=shards)
+    ctx.hyp("domains_multi", multi_gene_specs(), max_examples=ctx.pick(500, 12000), shards=shards)
     ctx.hyp("tta", gene_specs(max_codons=40, tta=True), max_examples=ctx.pick(1000, 25000), shards=shards)
     ctx.extra["bounds"] = {"all_ranges_up_to_residues": 40, "sampled_ranges_up_to_residues": 330,
                            "exons": 4, "record_length_up_to": 1500,
